@@ -305,7 +305,7 @@ func (r *Run) probe(c *Call) []*Violation {
 	// state than the recorded one - the zero value or an unrelated valid value.
 	// Only for calls that succeeded: a failed setter leaves its receiver as it was.
 	varied := ""
-	if c.Mode&1 == 1 && op.Writes && !op.RecvInput && !op.Ctor && !op.SwapArg &&
+	if c.Mode&1 == 1 && op.Writes && !op.RecvInput && !op.Ctor && !op.SwapArg && !op.Dynamic &&
 		strings.HasPrefix(rec.OutDig, "panic=false ") && !strings.Contains(rec.OutDig, "err:") {
 		in := func(xs []int) bool {
 			for _, x := range xs {
